@@ -76,12 +76,16 @@ def planSound (c : CoreCell) (m : Option Method) (b : Option Bool) : Bool :=
   !(m = some .cohorts && b = some true) &&
   !(b = some true && c.byDask && !c.expected && m ≠ none) &&
   -- arg-reductions: never reindexed blockwise on dask input (except under an explicit blockwise plan with dask labels,
-  -- a cell the differential run shows to fail always: finding C19-F2), blockwise plan only on a single block
+  -- which reindexes every block and is accepted on a single block only), blockwise plan only on a single block
   !(c.kind.isArg && m ≠ none && b = some true && !(m = some .blockwise && c.byDask)) &&
   !(c.kind.isArg && m = some .blockwise && !c.singleBlock) &&
   -- reductions without a chunk function only blockwise; subsets of the label axes only under map-reduce
   !(c.kind.chunkNone && m ≠ none && m ≠ some .blockwise) &&
   !(!c.ax.naxEqNdim && (m = some .blockwise || m = some .cohorts)) &&
+  -- a blockwise plan reindexes every block to the expected groups only on a single block along the reduced axes, and
+  -- with dask labels it always does so (the groups of a block cannot be found from lazy labels)
+  !(m = some .blockwise && b = some true && !c.singleBlock) &&
+  !(m = some .blockwise && c.byDask && b ≠ some true) &&
   -- a dask plan always has a definite reindex flag
   !(m ≠ none && b = none) &&
   -- an explicit method is honoured, except cohorts falling back to map-reduce when there is nothing to split
